@@ -283,6 +283,16 @@ Theorem C12_bridge_absorb_recv : forall k cmd, fix_wtx_chain k = true ->
 Proof. exact bridge_absorb_recv. Qed.
 Print Assumptions C12_bridge_absorb_recv.
 
+(* granted timeouts: with the echo of an S(WTX) request goes (data[1] & 0x3F) * fwt = blk_timeout x fwt, with every
+   other block the caller's timeout (default fwt + 49152/fc); the harness compares what reaches the device with this *)
+Theorem C12_bridge_timeouts : forall b0 b1 inf fwt pn k cmd off, is_wtx b0 = true -> bit pn ->
+  gen_send_wtx_timeout (b0 :: b1 :: inf) fwt = Qmult (inject_Z (blk_timeout (b0 :: b1 :: inf))) fwt /\
+  gen_recv_wtx_timeout (b0 :: b1 :: inf) fwt = Qmult (inject_Z (blk_timeout (b0 :: b1 :: inf))) fwt /\
+  gen_default_timeout fwt gen_delta_fwt = Qplus fwt (Qdiv (inject_Z 49152) (inject_Z 13560000)) /\
+  blk_timeout (iblock k cmd pn off) = 0 /\ blk_timeout [Z.lor 178 pn] = 0 /\ blk_timeout [Z.lor 162 pn] = 0.
+Proof. exact bridge_timeouts. Qed.
+Print Assumptions C12_bridge_timeouts.
+
 (* the shared budget (b65ae89): constant, counter and tests, and the model's budgeted transition function *)
 Theorem C12_bridge_extra : forall n m,
   gen_max_extra_blocks = MAX_EXTRA_BLOCKS /\ gen_extra_init = 0 /\
